@@ -122,6 +122,24 @@ EXTRA3 = {
  "C20": ("; copies into package-level slices as writes", " copy into a package-level slice counts as a write to shared state."),
 }
 
+EXTRA4 = {
+ "C01": ("; module genesis glue; typed-key decoder bounds vs. message limits; export height in the app's own loader", " The module glue hands the decoded state to the import on every returning path and changes nothing; typed-key decoders accept every component a message can store."),
+ "C02": ("; freshness of export containers; lost receiver writes in key types", " An export builds fresh containers; a key is encoded as it is."),
+ "C04": ("; export-height provenance", " An export at height H loads H."),
+ "C05": ("; exact language of the identifier validator; module genesis glue", " ValidateDID admits exactly did:panacea:<32-44 base58>; the module glue marshals the exported state unchanged."),
+ "C06": ("; separation of composite map keys", " Maps keyed by several identifiers keep them apart."),
+ "C08": ("; module genesis glue; nil-vs-empty lists in entry-state predicates; separation of composite map keys; whole-family iteration of list accessors", " Entry-state predicates do not tell a nil list from an empty one; list accessors iterate their whole family."),
+ "C09": ("; compound store effects inside map walks; address-printing fmt operands; map ranges in app set-up code", " No memory address reaches consensus-visible text; map walks that read-modify-write a second entry are order-sensitive."),
+ "C10": ("; map ranges in app set-up code; full walk of the upgrade set-up loops", " Start-up configuration does not depend on map order; every upgrade descriptor gets its handler and loader."),
+ "C12": ("; field assignments to decoded entities outside saving functions; module genesis glue; separation of composite map keys", " Getters and listers return entities as stored."),
+ "C13": ("; string decoder provenance; typed-key decoder bounds vs. message limits", " The string decoder splits its parameter; decoders accept maximum-length names."),
+ "C16": ("; quantifier shape of plural list predicates", " EmptyDIDs / ValidateDIDs hold only when every element does."),
+ "C17": ("; Burner permission of the burn module account", " bank.BurnCoins cannot panic inside EndBlock for a missing permission."),
+ "C18": ("; whole-family iteration of list accessors; typed-key decoder bounds vs. message limits", " GetAll* accessors put no bounds of their own on the family's prefix store."),
+ "C19": ("; reachability of core-family writers from registered module migrations", " In-place migrations of the three data modules rewrite no entry."),
+ "C20": ("; map ranges on query paths; appends onto package-level slices through locals", " No query answer is assembled in map order."),
+}
+
 PENDING_REASON = "check not built yet in this round (planned per DESIGN.md section 4); no claim is made until the checker rule exists"
 
 def main():
@@ -137,6 +155,8 @@ def main():
                 tech, text = tech + EXTRA2[pid][0], text + EXTRA2[pid][1]
             if pid in EXTRA3:
                 tech, text = tech + EXTRA3[pid][0], text + EXTRA3[pid][1]
+            if pid in EXTRA4:
+                tech, text = tech + EXTRA4[pid][0], text + EXTRA4[pid][1]
             if pid in ("C01","C02","C03","C04","C05","C06","C07","C08","C11","C12","C13","C15","C16","C18"):
                 tech, text = tech + EXTRA2["*"][0], text + EXTRA2["*"][1]
             checks.append({
